@@ -574,7 +574,22 @@ impl Profile for Misdeliver {
                 Op::Migrate { intent: None, .. } => "migrate",
                 _ => continue,
             };
-            cells.hit(format!("c04.misdelivered_to|{}|{}", k2, if r.outcome.is_ok() { "accepted" } else { "rejected" }));
+            // which kind was the document made for? (read off the document and the target's SPEC)
+            let (target, bytes) = match op {
+                Op::Exec { target, msg, .. } | Op::Query { target, msg, .. } | Op::Sudo { target, msg, .. } | Op::Migrate { target, msg, .. } => (Some(target.as_str()), &msg.0),
+                Op::Instantiate { msg, .. } => (None, &msg.0),
+                _ => continue,
+            };
+            let cid = match op {
+                Op::Instantiate { code, .. } => plan.codes.get(*code).map(|c| c.cid.clone()),
+                _ => target.and_then(|t| rec.contracts.iter().find(|c| c.addr == t)).map(|c| c.cid.clone()),
+            };
+            let k1 = cid
+                .as_deref()
+                .and_then(|c| reg.get(c))
+                .and_then(|e| Kind::ALL.iter().find(|k| dispatch::derive_intent(e.spec, **k, bytes).is_some()).map(|k| k.entry()))
+                .unwrap_or(if String::from_utf8_lossy(bytes).contains("\"gas_used\"") { "reply" } else { "other" });
+            cells.hit(format!("c04.pair|{}->{}|{}", k1, k2, if r.outcome.is_ok() { "accepted" } else { "rejected" }));
         }
         out
     }
